@@ -1,7 +1,8 @@
 ---------------------------- MODULE Lineshape_MC ----------------------------
 (***************************************************************************)
 (* Exhaustive check of the reference laws of Lineshape on TLC's own        *)
-(* lattice.  Four families of behaviours, each a scan:                     *)
+(* lattice.  One initial state; the first step (Start) picks a member of   *)
+(* one of four families of behaviours, each a scan:                        *)
 (*   "phsp"  : a mass pair, s = SMin..SMax in steps of 1/SDen (the real    *)
 (*             axis is walked from left to right through every region);    *)
 (*   "bw"    : an angular momentum L in 0..LMax, z along ZLattice          *)
